@@ -12,6 +12,7 @@ import sys
 from driver import Step, BUILD, ROOT
 
 LEVEL = "exploration"
+SETUP_RUNS_STEPS = True  # builds happen inside the step (generated cargo package): setup runs it once to warm the caches
 
 RULE = (
     "Cases are (generated type definition, variant) instances plus compile probes. Type definitions = a fixed "
